@@ -36,6 +36,9 @@ META = {
     "assumptions": ["inputs satisfy the kernels' precondition (strictly increasing uint32); in-situ calls whose "
                     "inputs violate it are counted and skipped"],
 }
+META["rule"] += '; round 7: operands that are unbroken runs of 16-200 consecutive row ids ending on word boundaries (2^32-1, 2^31, 65535/6, 255) or anywhere, the other operand overlapping them in every way'
+for _t in META["require"]:
+    META["require"][_t] = list(META["require"][_t]) + ['class:contiguous_run_operand']
 
 
 def shards(tier):
